@@ -3090,23 +3090,23 @@ func backoffDelay(faults int64, initialDelay, maxDelay time.Duration) time.Durat
 		return 0
 	}
 
-	// time.Duration is an int64 nanosecond count, so 62 doublings of even the
-	// smallest positive delay (1ns << 62 ≈ 146 years) exceed any sane maxDelay
-	// and one more doubling overflows int64. Cap early rather than rely on the
-	// wraparound check below.
+	// time.Duration is an int64 nanosecond count: 63 doublings of even the
+	// smallest positive delay overflow int64, so the result is above any
+	// maxDelay. Fewer doublings are decided exactly by the comparison below.
 	shift := faults - 1
-	if shift >= 62 {
+	if shift >= 63 {
 		return maxDelay
 	}
 
 	// a single shift can still wrap around for larger initial delays
-	// (e.g. 100ms << 40); a wrapped value is negative or huge, both clamp
-	delay := initialDelay << uint(shift)
-	if delay <= 0 || delay > maxDelay {
+	// (e.g. 100ms << 40), and a wrapped value is not always negative or above
+	// maxDelay: compare before shifting, so the doubling is only performed
+	// when its exact result fits below maxDelay
+	if initialDelay > maxDelay>>uint(shift) {
 		return maxDelay
 	}
 
-	return delay
+	return initialDelay << uint(shift)
 }
 
 // childAddress returns the address of the given child actor provided the name
